@@ -27,7 +27,7 @@ var mapOrderFrozen = map[string]string{
 	"github.com/dave/dst.NewPackage files":                                    "fork of go/ast.NewPackage: same map-order dependence as upstream (which file's package name / which redeclaration error comes first); kept identical by R-FORK",
 	"github.com/dave/dst.NewPackage file.Scope.Objects":                       "fork of go/ast.NewPackage (see above)",
 	"github.com/dave/dst.NewPackage pkg.Data.(*Scope).Objects":                "fork of go/ast.NewPackage (see above)",
-	"github.com/dave/dst.(*Scope).String s.Objects":                           "debug string, identical to go/ast.Scope.String",
+	"github.com/dave/dst.Scope.Objects":                                       "debug string, identical to go/ast.Scope.String",
 	"github.com/dave/dst.Walk n.Files":                                        "identical to go/ast.Walk: package files are walked in map order (C13 compares with upstream)",
 	"github.com/dave/dst/decorator.(*fileDecorator).addNodeFragments n.Files": "fragments of different files have disjoint position ranges and the list is stable-sorted by position afterwards",
 	"github.com/dave/dst/decorator.(*fileDecorator).fragment val.Files":       "per-file comment/newline fragments; the list is stable-sorted by position afterwards (cross-file line filtering is checked by R-FILESCOPE)",
@@ -55,7 +55,16 @@ func (e *Env) mapRanges() []mapRange {
 					return true
 				}
 				if _, isMap := pkg.TypesInfo.TypeOf(rs.X).Underlying().(*types.Map); isMap {
-					out = append(out, mapRange{pkg, fd, rs, pkg.PkgPath + "." + load.FuncName(fd) + " " + types.ExprString(rs.X)})
+					name := pkg.PkgPath + "." + load.FuncName(fd) + " " + types.ExprString(rs.X)
+					// a field of the receiver is named by type and field, whichever method ranges over it
+					if se, ok := rs.X.(*ast.SelectorExpr); ok && fd.Recv != nil && len(fd.Recv.List) == 1 && len(fd.Recv.List[0].Names) == 1 {
+						if id, ok := se.X.(*ast.Ident); ok && pkg.TypesInfo.Uses[id] == pkg.TypesInfo.Defs[fd.Recv.List[0].Names[0]] {
+							if v, ok := pkg.TypesInfo.Uses[se.Sel].(*types.Var); ok && v.IsField() {
+								name = pkg.PkgPath + "." + recvTypeName(fd) + "." + v.Name()
+							}
+						}
+					}
+					out = append(out, mapRange{pkg, fd, rs, name})
 				}
 				return true
 			})
